@@ -1,5 +1,5 @@
 """C18 SOCKS4/4a/5 messages per the RFCs: layouts, bounds, terminators."""
-from an import (Tracer, Explorer, STOP, guard_at, strip, strip_casts, walk, fmt, callee, const_eval, leaves, N)
+from an import (logical_root, Tracer, Explorer, STOP, guard_at, strip, strip_casts, walk, fmt, callee, const_eval, leaves, N)
 from layout import consume_paths, s4_check, lin, lin_str
 from mir import loc_str
 import re
@@ -932,10 +932,44 @@ def check(facts, rep, tier, cfg):
     check_r4(facts, rep, crate)
     check_r5(facts, rep, crate)
     check_r6_callsite_codes(facts, rep)
+    check_r7_reads_on_callers_reader(facts, rep, crate)
     rep.rule("C18.S7", "no new process-wide mutable state (static cell / lock / once-cell) in the files this property is anchored in")
     import whomay
     whomay.check_new_statics(facts, rep, "C18.S7", "C18")
     whomay.check_new_trait_methods(facts, rep, "C18.S7", "C18")
+
+
+def check_r7_reads_on_callers_reader(facts, rep, crate):
+    """Every read of a request / negotiation reader is made on the caller's reader itself (reborrows only): an adaptor in between
+    changes which inputs are accepted or what is left in the stream - `take(n)` rejects (or cuts) well-formed fields longer than n,
+    a fresh BufReader swallows the bytes that follow the message."""
+    rid = "C18.R7"
+    rep.rule(rid, "request / negotiation readers read from the caller's reader itself (no take / chain / new buffering adaptor between the "
+                  "reader parameter and a read call): every field length the RFC allows is accepted and nothing past the message is consumed")
+    n = 0
+    names = set(READ_W) | {"read_exact", "read_until", "read", "read_buf", "read_to_end", "fill_buf"}
+    for b in crate.bodies:
+        root = logical_root(facts, b)
+        if not root.name.startswith("read_"):
+            continue
+        tr = None
+        for bi, t in b.calls():
+            c = callee(t)
+            if not c or c["name"] not in names or not t["args"]:
+                continue
+            tr = tr or Tracer(facts, b)
+            recv = tr.operand(t["args"][0])
+            n += 1
+            where = "%s (%s)" % (loc_str(t["loc"]), b.path)
+            adaptors = [x for x in walk(recv) if x.kind == "call" and x[6] not in ("deref", "deref_mut", "as_mut", "borrow_mut", "get_mut", "by_ref")]
+            key = "%s/%s" % (root.path, c["name"])
+            if adaptors:
+                rep.bad(rid, key, where,
+                        "this read is made through `%s`, not on the caller's reader itself: inputs the RFC allows (e.g. a NUL-terminated field "
+                        "longer than the adaptor's limit) are rejected or cut, or bytes after the message are consumed" % fmt(adaptors[0])[:100])
+            else:
+                rep.ok(rid, key, where, "read on the reader parameter", nontrivial=False)
+    rep.floor(rid, "read calls in the SOCKS readers", n, 10)
 
 
 def check_r6_callsite_codes(facts, rep):
